@@ -3,7 +3,7 @@ from sim.cmd_scenario import CmdScenario
 
 PROP = "C18"
 LEVEL = "exploration"
-RUNS = {"quick": 4000, "thorough": 100000}
+RUNS = {"quick": 3000, "thorough": 100000}
 BUDGET_S = {"quick": 50, "thorough": 840}
 CHUNK = 50
 RULE = ('One evaluation = one seeded history over run / dry-run / status / touch / clean / spec edit / hashing on|off (via gwf config) / rename / remove / add target / run with the k-th submission rejected. Oracle: parsed .gwf/spec-hashes.json == M_hash after every gwf command (set on accepted submission or touch while enabled, erased on clean, untouched otherwise), and every status table == M_status computed with M_hash.')
